@@ -210,6 +210,21 @@ def run_products(spec, ctx):
                     y2 = numpoly.polynomial_from_attributes([[b], [0]], [1, 3], names=("q0",))
                     want2 = (mono(["q0"], [a]) + M.MP.const(1)) * (mono(["q0"], [b]) + M.MP.const(3))
                     results.append(("two-term", numpoly.multiply(x2, y2), want2))
+                if a and b:
+                    # the large exponent sits in a *later* indeterminate, while the
+                    # lexicographically last product row is small
+                    x4 = numpoly.polynomial_from_attributes([[1, 0], [0, a]], [1, 2], names=("q0", "q1"))
+                    y4 = numpoly.polynomial_from_attributes([[0, b], [0, 0]], [3, 5], names=("q0", "q1"))
+                    xm4 = M.MP.from_rows(["q0", "q1"], [[1, 0], [0, a]], [1, 2])
+                    ym4 = M.MP.from_rows(["q0", "q1"], [[0, b], [0, 0]], [3, 5])
+                    results.append(("late-indeterminate", x4 * y4, xm4 * ym4))
+                    x5 = numpoly.polynomial_from_attributes([[2, 0, 1], [0, 1, a]], [1.5, 2.0],
+                                                            names=("q0", "q1", "q2"))
+                    y5 = numpoly.polynomial_from_attributes([[0, 0, b], [1, 0, 0]], [4.0, -1.0],
+                                                            names=("q0", "q1", "q2"))
+                    xm5 = M.MP.from_rows(["q0", "q1", "q2"], [[2, 0, 1], [0, 1, a]], [1.5, 2.0])
+                    ym5 = M.MP.from_rows(["q0", "q1", "q2"], [[0, 0, b], [1, 0, 0]], [4.0, -1.0])
+                    results.append(("late-indeterminate-3", x5 * y5, xm5 * ym5))
                 if pi % 3 == 0 and a != 1 and b != 2 and a != b:
                     x3 = numpoly.polynomial_from_attributes([[a, 2], [1, b]], [[1, 2], [3, 4]],
                                                             names=("q0", "q1"))
